@@ -135,7 +135,7 @@ func reloadSim(r *simcore.Run) {
 			w.steps = [][]byte{nil}
 			w.why = "truncated-to-empty-first"
 		case 3:
-			bad := simcore.Pick(s, []string{"rsa1024", "rsa2560", "rsa3584", "ed25519", "garbage", "cert-only"}, "bad")
+			bad := simcore.Pick(s, []string{"rsa1024", "rsa2560", "rsa3584", "ed25519", "garbage", "cert-only", "ec224", "good-then-ec224"}, "bad")
 			var b []byte
 			switch bad {
 			case "garbage":
@@ -143,6 +143,10 @@ func reloadSim(r *simcore.Run) {
 			case "cert-only":
 				_, caDER := simkeys.MintCA(simkeys.FixtureKey("ec256ca"), time.Now().Add(time.Hour))
 				b = simkeys.PEMCert(caDER)
+			case "good-then-ec224":
+				// a usable entry followed by a key on a curve JOSE has no algorithm for
+				extra, _ := os.ReadFile(simkeys.FixturePath("ec224"))
+				b = append(append([]byte(nil), v.pem...), extra...)
 			default:
 				b, _ = os.ReadFile(simkeys.FixturePath(bad))
 			}
